@@ -1,0 +1,31 @@
+//! Verification hooks, compiled only with `--cfg icy_engine_verif`.
+//! A gate at the start of every sixel decode lets a test harness hold each background
+//! decode thread and release them in a chosen order. With the cfg off this file is not
+//! part of the crate and nothing calls into it.
+use std::sync::{Condvar, Mutex};
+
+static GATE: Mutex<(bool, Vec<String>)> = Mutex::new((false, Vec::new()));
+static GATE_CV: Condvar = Condvar::new();
+
+/// Turns gating on or off. Turning it off releases every waiting decode.
+pub fn sixel_gate_enable(on: bool) {
+    let mut g = GATE.lock().unwrap();
+    g.0 = on;
+    g.1.clear();
+    GATE_CV.notify_all();
+}
+
+/// Releases the decode whose payload equals `key`.
+pub fn sixel_gate_release(key: &str) {
+    let mut g = GATE.lock().unwrap();
+    g.1.push(key.to_string());
+    GATE_CV.notify_all();
+}
+
+/// Called at the start of `Sixel::parse_from`: blocks while gating is on and `data` has not been released.
+pub fn sixel_decode_gate(data: &str) {
+    let mut g = GATE.lock().unwrap();
+    while g.0 && !g.1.iter().any(|k| k == data) {
+        g = GATE_CV.wait(g).unwrap();
+    }
+}
